@@ -3,14 +3,23 @@
 //! ONE real driver connection (`verif_hooks::connection::VerifConn`, generator set in its connection config) against
 //! one scripted node (mocknode), statements sent one after another:
 //!   `e` EXECUTE   `b` BATCH (one prepared statement)   `q` QUERY    - timestamp from the generator
-//!   `E` / `B` / `Q` the same with an explicit `set_timestamp(Some(t))` (boundary-heavy t)
+//!   `u` BATCH holding one UNPREPARED statement WITH VALUES: `Connection::batch_with_consistency` first runs
+//!       `prepare_batch`, which prepares it and REBUILDS the batch (`Batch::new_from(init_batch)` + the statements) before
+//!       the batch's timestamp is read (connection.rs:1184-1201, 1248-1290, batch.rs:45-53)
+//!   `m` BATCH mixing a prepared statement and an unprepared one with values (the same rebuild)
+//!   `p` a `Statement` sent the way `Session::query_*` sends one WITH VALUES: `Connection::prepare(&statement)` and then
+//!       EXECUTE of the result (session.rs:1424-1438) - the statement's configuration travels Statement -> PreparedStatement
+//!   `E` / `B` / `Q` / `U` / `M` / `P` the same with an explicit `set_timestamp(Some(t))` (boundary-heavy t)
 //!   `v` the node forgets every prepared statement (the next EXECUTE / BATCH is answered UNPREPARED, re-prepared, re-sent)
 //!
 //! ORACLE on EVERY statement frame the node receives (first sends and re-sends alike):
 //!  * a statement with an explicit timestamp carries exactly it on each of its frames;
 //!  * with a generator, every other frame carries a timestamp and the timestamps of a later statement exceed those of
 //!    every earlier one (one connection, sequential sends); with `gen=script` they are values the generator handed out;
-//!    without a generator (`gen=none`) they carry none.
+//!    without a generator (`gen=none`) they carry none;
+//!  * the generator is a COUNTING one (`gen=script`): a statement with an explicit timestamp does not advance it (it is
+//!    not consulted), every other statement advances it by exactly one step however many frames it took (re-sends
+//!    included) - `explicit_leaves_generator_untouched` / `frames_ask_at_most_once` of Props/C18.lean.
 use super::common::*;
 use crate::mocknode::*;
 use crate::rng::Rng;
@@ -29,11 +38,13 @@ pub fn generate(rng: &mut Rng, tier: Tier, emit: &mut dyn FnMut(String)) {
         let len = 3 + rng.below(14);
         let mut ops = Vec::new();
         for _ in 0..len {
-            ops.push(*rng.pick(&["e", "E", "E", "b", "B", "q", "Q", "v", "v"]));
+            ops.push(*rng.pick(&["e", "E", "E", "b", "B", "q", "Q", "v", "v", "u", "U", "U", "m", "M", "p", "P"]));
         }
         // the history of interest at least once: explicit timestamp, eviction, re-send
         ops.push("v");
-        ops.push(*rng.pick(&["E", "B"]));
+        ops.push(*rng.pick(&["E", "B", "U", "M"]));
+        // the connection-level batch rebuild with an explicit timestamp, in every case
+        ops.push("U");
         emit(format!("e2e tsconn gen={} seed={} ops={}", ["mono", "script", "mono", "script", "none"][i % 5], rng.below(1 << 32), ops.join(".")));
     }
 }
@@ -42,10 +53,12 @@ struct ScriptedGenerator {
     next: AtomicI64,
     step: i64,
     handed: Mutex<HashSet<i64>>,
+    calls: AtomicI64,
 }
 
 impl TimestampGenerator for ScriptedGenerator {
     fn next_timestamp(&self) -> i64 {
+        self.calls.fetch_add(1, Ordering::SeqCst);
         let v = self.next.fetch_add(self.step, Ordering::SeqCst);
         self.handed.lock().unwrap().insert(v);
         v
@@ -61,7 +74,7 @@ pub fn run(words: &[&str], ctx: &mut Ctx) -> String {
     let (Some(seed), Some(ops_s)) = (p.num_or("seed", 1), p.str("ops")) else { return "bad-case".into() };
     let gen_kind = p.str("gen").unwrap_or("mono");
     let ops: Vec<&str> = ops_s.split('.').filter(|o| !o.is_empty()).collect();
-    if !["mono", "script", "none"].contains(&gen_kind) || ops.len() > 500 || ops.iter().any(|o| !["e", "E", "b", "B", "q", "Q", "v"].contains(o)) {
+    if !["mono", "script", "none"].contains(&gen_kind) || ops.len() > 500 || ops.iter().any(|o| !["e", "E", "b", "B", "q", "Q", "v", "u", "U", "m", "M", "p", "P"].contains(o)) {
         return "bad-case".into();
     }
     let held: Arc<Mutex<HashSet<Vec<u8>>>> = Arc::new(Mutex::new(HashSet::new()));
@@ -89,6 +102,7 @@ pub fn run(words: &[&str], ctx: &mut Ctx) -> String {
         next: AtomicI64::new(*Rng::new(seed ^ 0x6765_6e).pick(&[0i64, 1, -1000, 1_700_000_000_000_000, i64::MAX / 2])),
         step: 1 + (seed % 1000) as i64,
         handed: Mutex::new(HashSet::new()),
+        calls: AtomicI64::new(0),
     });
     let rt = crate::mockcluster::runtime(1);
     rt.block_on(async {
@@ -110,6 +124,7 @@ pub fn run(words: &[&str], ctx: &mut Ctx) -> String {
         for (oi, op) in ops.iter().enumerate() {
             let ts = op.chars().next().unwrap().is_ascii_uppercase().then(|| rng.i64_boundary());
             explicit.push(ts);
+            let calls_before = scripted.calls.load(Ordering::SeqCst);
             let ok = match op.to_ascii_lowercase().as_str() {
                 "v" => {
                     held.lock().unwrap().clear();
@@ -129,6 +144,32 @@ pub fn run(words: &[&str], ctx: &mut Ctx) -> String {
                     b.set_timestamp(ts);
                     conn.batch(&b, ((key_of(oi), 0i32),)).await.is_ok()
                 }
+                "u" => {
+                    let mut b = Batch::new(BatchType::Unlogged);
+                    b.append_statement(Statement::new(INSERT));
+                    b.set_timestamp(ts);
+                    conn.batch(&b, ((key_of(oi), 0i32),)).await.is_ok()
+                }
+                "m" => {
+                    let mut b = Batch::new(BatchType::Unlogged);
+                    b.append_statement(ps.clone());
+                    b.append_statement(Statement::new(INSERT));
+                    b.set_timestamp(ts);
+                    conn.batch(&b, ((key_of(oi), 0i32), (key_of(oi), 1i32))).await.is_ok()
+                }
+                "p" => {
+                    let mut st = Statement::new(INSERT);
+                    st.set_timestamp(ts);
+                    match conn.prepare(&st).await {
+                        Ok(h) => {
+                            let mut values = SerializedValues::new();
+                            let _ = values.add_value(&key_of(oi), &ColumnType::Native(NativeType::Blob));
+                            let _ = values.add_value(&0i32, &ColumnType::Native(NativeType::Int));
+                            conn.execute(&h, &values, None, scylla::response::PagingState::start()).await.is_ok()
+                        }
+                        Err(_) => false,
+                    }
+                }
                 _ => {
                     let mut st = Statement::new(format!("INSERT INTO ks.t (pk, v) VALUES (0x{}, 0)", crate::util::hex(&key_of(oi))));
                     st.set_timestamp(ts);
@@ -137,6 +178,21 @@ pub fn run(words: &[&str], ctx: &mut Ctx) -> String {
             };
             if !ok {
                 errors += 1;
+            }
+            // the counting generator: not consulted for an explicit timestamp, asked once otherwise
+            if gen_kind == "script" && *op != "v" && ok {
+                let asked = scripted.calls.load(Ordering::SeqCst) - calls_before;
+                match ts {
+                    Some(t) if asked != 0 => ctx.fail(format!(
+                        "e2e tsconn: statement #{} (`{}`) was given set_timestamp(Some({})), yet sending it asked the connection's timestamp generator {} time(s) (a generated timestamp was burnt)",
+                        oi, op, t, asked
+                    )),
+                    None if asked != 1 => ctx.fail(format!(
+                        "e2e tsconn: statement #{} (`{}`) without an explicit timestamp asked the connection's timestamp generator {} times in one call (expected exactly once, re-sent frames included)",
+                        oi, op, asked
+                    )),
+                    _ => {}
+                }
             }
         }
         // ------------------------------------------------------------------ oracle
